@@ -43,6 +43,9 @@ def check(model: Model, rep: Report, tier: str):
     cg = CallGraph(model)
     with rep.isolated():
         share_rule(rep, model, lambda m, r: h1(m, r, cg, Effects(m, cg)), "C10.T3", "the schedule under a changed duration configuration is recomputed: every writer of a duration setting invalidates the memoised start times (= C03.H1)")
+    from .c03 import h5
+    with rep.isolated():
+        share_rule(rep, model, lambda m, r: h5(m, r, cg), "C10.T5", "memoised start times are keyed per link: unrolled repetitions and look-alike blocks never share an entry (= C03.H5)")
 
 
 # the duration setting each operation kind lasts for (specification table; a class missing here is reported in the evidence only)
